@@ -1,4 +1,6 @@
 import Dbg.Lemmas.KmerHd1
+import Dbg.Lemmas.KmerExtend
+import Dbg.Model.KmerExts
 /-! # C10 (continued) — `KmerOneHammingIter` enumerates exactly the Hamming-distance-1 neighbours
 
 Not one of the operations C10 lists, but part of the k-mer API (neighbors.rs): the iterator over a k-mer yields, on the
@@ -150,5 +152,23 @@ theorem C10_hd1_strings (c : Cfg) (hc : c.WF) (s : St c) :
     rw [← h] at this
     obtain ⟨x, hx, rfl⟩ := List.mem_map.mp this
     exact ⟨x, hx, rfl⟩
+
+/-- **`get_extensions` on strings**: one k-mer per base of the extension set on that side, ascending, each the string shifted by
+    that base on that side -/
+theorem C10_getExtensions (c : Cfg) (hc : c.WF) (s : St c) (hs : Inv c s) (e : Compress.Exts) (d : Walk.Dir) :
+    (getExtensions c s e d).map (toSeq c) =
+      (e.get d).map fun b => match d with
+        | .R => KSpec.extendRight (toSeq c s) b
+        | .L => KSpec.extendLeft (toSeq c s) b := by
+  unfold getExtensions
+  rw [List.map_map]
+  apply List.map_congr_left
+  intro b hb
+  have hb4 : b < 4 := by
+    unfold Compress.Exts.get at hb
+    exact List.mem_range.mp (List.mem_filter.mp hb).1
+  cases d with
+  | R => simp only [Function.comp, extend, if_true]; exact toSeq_extendRight hc s b hb4
+  | L => simp only [Function.comp, extend, Bool.false_eq_true, if_false]; exact toSeq_extendLeft hc s b hb4 hs
 
 end Kmer
